@@ -142,7 +142,7 @@ func (f *Func) Resolve(e ast.Expr) Val {
 		defs := f.Defs(obj)
 		if len(defs) > 1 {
 			// several definitions: flow-sensitive answer - the single definition that reaches this use
-			if d, ok := f.reachingDef(obj, id, defs); ok {
+			if d, ok := f.holderOf(id).reachingDef(obj, id, defs); ok {
 				defs = []Def{d}
 			}
 		}
@@ -593,6 +593,16 @@ func (f *Func) reachingDef(obj types.Object, id *ast.Ident, defs []Def) (Def, bo
 	return d, true
 }
 
+// holderOf returns f or the enclosing function whose body contains id: a value
+// followed out of a literal continues in the function that created the literal.
+func (f *Func) holderOf(id *ast.Ident) *Func {
+	cf := f
+	for cf.Parent != nil && cf.Body != nil && (id.Pos() < cf.Body.Pos() || id.End() > cf.Body.End()) {
+		cf = cf.Parent
+	}
+	return cf
+}
+
 // reachingAtLit answers reachingDef for a variable captured by the literal lit,
 // which is created in f (or in a literal nested in f's own literals).
 func (f *Func) reachingAtLit(lit *ast.FuncLit, defs []Def) (Def, bool) {
@@ -695,7 +705,7 @@ func (f *Func) copyRoot(e ast.Expr) ast.Expr {
 		}
 		defs := f.Defs(obj)
 		if len(defs) > 1 {
-			if d, ok := f.reachingDef(obj, id, defs); ok {
+			if d, ok := f.holderOf(id).reachingDef(obj, id, defs); ok {
 				defs = []Def{d}
 			}
 		}
